@@ -196,9 +196,8 @@ DATA_ONLY = [
     r"adj->[\w.]+(?:->\w+)?=(?:val|data|tmp_id|true|false|Status::\w+|\(s==\"aposteriori\"\))",
     r"adj->xmlerror\.setDescription\(data\)",
     r"adj->(?:obslist|original_index)\.clear\(\)", r"adj->original_index\.push_back\(-1\)",
-    r"adj->(?:obslist\.push_back\(tmp_obs\)|ellipses\.push_back\(tmp_ellipse\)|orientations\.push_back\(tmp_orientation\))",
-    r"pointlist=&adj->\w+", r"pointlist->push_back\(tmp_point\)",
-    r"tmp_point_adjusted=(?:true|false)", r"tmp_adj_index=0",
+    r"adj->(?:obslist\.push_back\(tmp_obs\)|ellipses\.push_back\(tmp_ellipse\))",
+    r"tmp_adj_index=0",
     r"tmp_(?:point|ellipse|obs)\.clear\(\)", r"tmp_obs\.xml_tag=tmp_tag",
     r"tmp_point\.(?:id=tmp_id|hxy=point_has_x&&point_has_y|hz=point_has_z|cxy=point_con_x&&point_con_y|cz=point_con_z)",
     r"tmp_orientation\.(?:id=tmp_id|index=\+\+tmp_adj_index)",
@@ -263,6 +262,21 @@ def translate_simple(cx, text, where):
     m = re.fullmatch(r"point_(has|con)_([xyz])=(true|false)", t)
     if m:
         return [("setFlag", m.group(1) + m.group(2).upper(), m.group(3) == "true")]
+    # bookkeeping that `band(false)` reads since 3e87ff8: which list a <point> goes to, whether it gets adjustment indexes,
+    # the points / orientations pushed
+    m = re.fullmatch(r"pointlist=&adj->(\w+)", t)
+    if m:
+        return [("book", "listAdjusted", m.group(1) == "adjusted_points")]
+    m = re.fullmatch(r"tmp_point_adjusted=(true|false)", t)
+    if m:
+        return [("book", "pointAdjusted", m.group(1) == "true")]
+    if t == "pointlist->push_back(tmp_point)":
+        return [("book", "pushPoint")]
+    if t == "adj->orientations.push_back(tmp_orientation)":
+        return [("book", "pushOrientation")]
+    if t == "COUNT_UNKNOWNS":
+        cx.count_unknowns = True
+        return [("data",)]
     if t == "tmp_dim=get_int()":
         return [("getInt", "dim")]
     if t == "tmp_band=get_int()":
@@ -295,6 +309,11 @@ def translate_simple(cx, text, where):
 
 COV_GUARD = norm("tmp_dim < 0 || tmp_band < 0 || tmp_band > std::max(tmp_dim-1, 0) || "
                  "(tmp_band + 1LL)*tmp_dim > std::numeric_limits<int>::max()")
+COV_GUARD_UNKNOWNS = COV_GUARD + norm("|| tmp_dim > unknowns")
+# `unknowns` = adj->orientations.size() + number of non-zero adjustment indexes of adj->adjusted_points (compared textually)
+COUNT_UNKNOWNS_RX = re.compile(r"long\s+long\s+unknowns\s*=\s*adj->orientations\.size\(\)\s*;\s*"
+                               r"for\s*\(\s*const\s+auto\s*&\s*p\s*:\s*adj->adjusted_points\s*\)\s*"
+                               r"unknowns\s*\+=\s*\(p\.indx\s*!=\s*0\)\s*\+\s*\(p\.indy\s*!=\s*0\)\s*\+\s*\(p\.indz\s*!=\s*0\)\s*;")
 
 
 def translate_attr_loop(cx, cond, body, where):
@@ -416,8 +435,12 @@ def translate_block(cx, stmts, where):
                     then[0][0] == "simple" and error_call(norm(then[0][1])) is not None:
                 ops.append(("needCategory", cx.err(error_call(norm(then[0][1])))))
                 continue
-            if c == COV_GUARD and len(then) == 2 and then[0][0] == "simple" and error_call(norm(then[0][1])) is not None and \
-                    then[1][0] == "simple" and norm(then[1][1]) == "tmp_dim=tmp_band=0":
+            if c in (COV_GUARD, COV_GUARD_UNKNOWNS) and len(then) == 2 and then[0][0] == "simple" and \
+                    error_call(norm(then[0][1])) is not None and then[1][0] == "simple" and norm(then[1][1]) == "tmp_dim=tmp_band=0":
+                if c == COV_GUARD_UNKNOWNS:
+                    if not getattr(cx, "count_unknowns", False):
+                        fail(f"{where}: `tmp_dim > unknowns` without the count of the unknowns in front of it")
+                    cx.cov_guard_unknowns = True
                 ops.append(("covGuard", cx.err(error_call(norm(then[0][1])))))
                 continue
             if c == "tmp_point_adjusted":
@@ -441,6 +464,8 @@ def body_text(st):
 
 def translate_handler(cx, src, name):
     body, params = member_body(src, name)
+    cx.count_unknowns = False
+    body = COUNT_UNKNOWNS_RX.sub("COUNT_UNKNOWNS;", body)
     if norm(params) not in ("boolstart", "bool"):
         fail(f"handler {name}: parameter list '{params}'")
     sts = split_statements(body)
@@ -650,6 +675,8 @@ def generate(repo):
             return f".requireString [{', '.join(lstr(s) for s in op[1])}] {E(op[2])}"
         if k in ("needCategory", "covGuard"):
             return f".{k} {E(op[1])}"
+        if k == "book":
+            return f".book (.{op[1]}" + ("" if len(op) == 2 else (" true" if op[2] else " false")) + ")"
         fail("internal: op " + repr(op))
 
     L = []
@@ -685,6 +712,9 @@ def generate(repo):
       "inductive AttrKind where\n  | plain\n  | category\n  | equals (v : String) (e : Err)\n  deriving DecidableEq, Repr\n")
     A("inductive IntDst where\n  | none | dim | band\n  deriving DecidableEq, Repr\n")
     A("inductive StrDst where\n  | none | s\n  deriving DecidableEq, Repr\n")
+    A("/-- bookkeeping read by the `tmp_dim > unknowns` test of `band(false)`: `pointlist = &adj->…` (is it adjusted_points?),\n"
+      "    `tmp_point_adjusted = …`, `pointlist->push_back(tmp_point)`, `adj->orientations.push_back(tmp_orientation)` -/\n"
+      "inductive Book where\n  | listAdjusted (v : Bool) | pointAdjusted (v : Bool) | pushPoint | pushOrientation\n  deriving DecidableEq, Repr\n")
     A("/-- one statement of a handler branch (see tools/gen/c11_adjres.py) -/\ninductive Op where\n"
       "  | push (h : Handler)\n  | setState (s : State)\n  | assignState (s : State)\n"
       "  | attrs (names : List (String × AttrKind)) (unknownErr : Err)\n  | needCategory (e : Err)\n"
@@ -693,8 +723,11 @@ def generate(repo):
       "  | requireState (ss : List State) (e : Err)\n  | requireFlagEq (a b : Flag) (e : Err)\n"
       "  | setFlag (f : Flag) (v : Bool)\n  | covGuard (e : Err)\n  | covReset\n  | iterBegin\n  | iterEnd\n"
       "  | iterErr (stateGuard : Option State) (whenAtEnd : Bool) (e : Err)\n  | store (guarded : Bool)\n"
-      "  | requireString (allowed : List String) (e : Err)\n  | error (e : Err)\n  | data\n"
+      "  | requireString (allowed : List String) (e : Err)\n  | error (e : Err)\n  | data\n  | book (b : Book)\n"
       "  deriving DecidableEq, Repr\n")
+    A("/-- the guard in front of `adj->cov.reset` also refuses `tmp_dim > unknowns`, `unknowns` = `adj->orientations.size()` + the\n"
+      "    number of non-zero `indx/indy/indz` of `adj->adjusted_points` (counted in a loop just before it; fix 3e87ff8) -/\n"
+      f"def covGuardUnknowns : Bool := {'true' if getattr(cx, 'cov_guard_unknowns', False) else 'false'}\n")
     A(f"/-- `set_state(s)` is `if (state) state = s;` -/\ndef setStateGuarded : Bool := {'true' if set_state_guarded else 'false'}\n")
     A(f"/-- value returned by `CoreParser::error`, used as a tag index by `return error(\"unknown tag\")` -/\n"
       f"def errorReturn : Nat := {error_return}\n")
